@@ -5,7 +5,7 @@
    declined (Err TypeErr).  No proofs here.
    State: the symbol counter of mksymbol, the shared revert label of _assert_false, existing_labels; `lh` is a ghost
    field (not part of the real lowerer): the stack height at which each generated label is placed (None: any height).
-   Parameters: wa = withargs, bd = break_dest (exit label, continue label, height). *)
+   Arguments: wa = withargs, bd = break_dest (exit label, continue label, height). *)
 From Coq Require Import ZArith Bool List String Ascii DecimalString.
 From Verif Require Import Base.Word256 Base.PyInt C15.Syntax C15.GenUtils C15.Peephole.
 Import ListNotations.
